@@ -83,16 +83,36 @@ class PathFact(ast.Expr):
         self.truth = truth
 
 
-def body_paths(stmts, upd=()):
+def body_paths(stmts, upd=(), inline=None, _depth=0):
     """
     yield (kind, tuple of simple statements executed) for each path through stmts.
     kind: fall | back (continue) | break | exit (return/raise)
     Inner loops contribute nothing (they may run zero times) except their return/raise exits.
+
+    :param inline: optional callable(call node) -> list of statements | None. When a statement is a bare call
+        `h(...)` and `inline` returns the body of h (parameters already renamed to the arguments), the paths of that
+        body are spliced in: a `return` inside it ends the helper, not the caller.
     """
     if not stmts:
         yield ("fall", upd)
         return
     s, rest = stmts[0], stmts[1:]
+    if inline is not None and _depth < 3 and isinstance(s, ast.Expr) and not isinstance(s, PathFact) and isinstance(s.value, ast.Call):
+        hbody = inline(s.value)
+        if hbody is not None:
+            for k, u in body_paths(hbody, upd, inline, _depth + 1):
+                returned = k == "exit" and u and isinstance(u[-1], ast.Return)
+                if k == "fall" or returned:
+                    for x in body_paths(rest, u[:-1] if returned else u, inline, _depth):
+                        yield x
+                else:
+                    yield (k, u)
+            return
+    if inline is not None:
+        # same enumeration, carrying the inliner along
+        for x in _body_paths_inl(s, rest, upd, inline, _depth):
+            yield x
+        return
     if isinstance(s, ast.If):
         for br, truth in ((s.body, True), (s.orelse, False)):
             for k, u in body_paths(br, upd + (PathFact(s.test, truth),)):
@@ -134,6 +154,98 @@ def body_paths(stmts, upd=()):
     else:
         for x in body_paths(rest, upd + (s,)):
             yield x
+
+
+def _body_paths_inl(s, rest, upd, inline, depth):
+    """body_paths' case analysis with the inliner passed down (kept apart so that the plain enumeration stays as it was)"""
+
+    def bp(stmts, u):
+        return body_paths(stmts, u, inline, depth)
+
+    if isinstance(s, ast.If):
+        for br, truth in ((s.body, True), (s.orelse, False)):
+            for k, u in bp(br, upd + (PathFact(s.test, truth),)):
+                if k == "fall":
+                    for x in bp(rest, u):
+                        yield x
+                else:
+                    yield (k, u)
+    elif isinstance(s, (ast.For, ast.While, ast.AsyncFor)):
+        if any(isinstance(n, (ast.Return, ast.Raise)) for n in ast.walk(s)):
+            yield ("exit", upd)
+        for x in bp(rest, upd):
+            yield x
+    elif isinstance(s, ast.Break):
+        yield ("break", upd)
+    elif isinstance(s, ast.Continue):
+        yield ("back", upd)
+    elif isinstance(s, (ast.Return, ast.Raise)):
+        yield ("exit", upd + (s,))
+    elif isinstance(s, (ast.With, ast.AsyncWith)):
+        for k, u in bp(s.body, upd):
+            if k == "fall":
+                for x in bp(rest, u):
+                    yield x
+            else:
+                yield (k, u)
+    elif isinstance(s, ast.Try):
+        alts = [s.body + s.orelse] + [h.body for h in s.handlers]
+        for alt in alts:
+            for k, u in bp(alt + s.finalbody, upd):
+                if k == "fall":
+                    for x in bp(rest, u):
+                        yield x
+                else:
+                    yield (k, u)
+    elif isinstance(s, (ast.FunctionDef, ast.AsyncFunctionDef, ast.ClassDef)):
+        for x in bp(rest, upd):
+            yield x
+    else:
+        for x in bp(rest, upd + (s,)):
+            yield x
+
+
+def helper_inliner(index, graph, root):
+    """
+    an `inline` callback for body_paths: the body of a private helper of root's Region, with the helper's parameters
+    renamed to the argument expressions of the call (arguments must be plain names / constants / subscripts)
+    """
+    import copy
+
+    from ..region import Region
+
+    reg = Region(index, graph, root)
+
+    def inline(call):
+        h = index.funcs.get(index.callee(root.mod, call, root) or "")
+        if h is None:
+            for g in reg.funcs[1:]:
+                if isinstance(call.func, ast.Name) and call.func.id == g.node.name:
+                    h = g
+        if h is None or h not in reg.funcs[1:]:
+            return None
+        bound = {}
+        for i, a in enumerate(call.args):
+            if isinstance(a, ast.Starred) or i >= len(h.params):
+                return None
+            bound[h.params[i]] = a
+        for k in call.keywords:
+            if k.arg is None:
+                return None
+            bound[k.arg] = k.value
+
+        class Ren(ast.NodeTransformer):
+            def visit_Name(self, x):
+                if x.id in bound and isinstance(x.ctx, ast.Load):
+                    return ast.copy_location(copy.deepcopy(bound[x.id]), x)
+                if x.id in bound and isinstance(bound[x.id], ast.Name):
+                    return ast.copy_location(ast.Name(id=bound[x.id].id, ctx=x.ctx), x)
+                return x
+
+        body = [st for st in h.node.body if not (isinstance(st, ast.Expr) and isinstance(st.value, ast.Constant))]
+        return [Ren().visit(copy.deepcopy(st)) for st in body]
+
+    return inline
 
 
 MAYBE_ZERO_CALLS = frozenset(("count_iter_items", "len", "count", "find", "index"))
